@@ -151,6 +151,13 @@ func (ctx *Ctx) genFunc(fn *ssa.Function, ct *Contract, houdini map[int][]*Claus
 	if len(f.rets) == 0 {
 		g.note("no reachable return")
 	}
+	if ct != nil {
+		for _, c := range ct.AtReturn {
+			if g.atReturnUsed[c.Text] == 0 {
+				g.specErrs = append(g.specErrs, fmt.Sprintf("%s:%d: at-return %q applies to no return site", ct.File, c.Line, c.Text))
+			}
+		}
+	}
 	for ri, r := range f.rets {
 		// cover: the return is reachable
 		vc.Covers = append(vc.Covers, &Obligation{Name: fmt.Sprintf("%s#cover[return%d]", vc.Key, ri), Kind: "cover", Fn: vc.Key, Cond: r.st.cond, Goal: boolLit(false), PreludeLen: len(g.lines)})
